@@ -22,7 +22,7 @@ type call struct {
 	kids     []call // calls inside the block, after the marker
 }
 
-var kinds = []string{"slot", "noslot", "twice", "wrap", "flush", "once", "join", "fnIgnore", "fnForward", "argslot", "flushPlain", "join1", "join0", "fnNonce"}
+var kinds = []string{"slot", "noslot", "twice", "wrap", "flush", "once", "join", "fnIgnore", "fnForward", "argslot", "flushPlain", "join1", "join0", "fnNonce", "after"}
 
 const library = `package main
 
@@ -64,6 +64,14 @@ templ hFailMid() {
 		before
 		@failingC()
 	}
+}
+
+// a call without a block directly followed, on the next line, by the component's own slot and by an expression
+templ cafter() {
+	@cnoslot()
+	{ children... }
+	@cnoslot()
+	{ "x" }
 }
 
 templ cwrap() {
@@ -259,6 +267,8 @@ func (c call) expr() string {
 		return "templ.Join()"
 	case "fnNonce":
 		return "fnNonce()"
+	case "after":
+		return "cafter()"
 	}
 	panic(c.kind)
 }
@@ -335,6 +345,8 @@ func render(cs []call, onceDone *bool) string {
 		case "join0":
 		case "fnNonce":
 			b.WriteString("<o>" + block() + "</o>")
+		case "after":
+			b.WriteString("<n></n>" + block() + "<n></n>x")
 		}
 	}
 	return b.String()
@@ -425,6 +437,9 @@ func (d *dyn) calls(cs []call) string {
 		case "fnNonce":
 			ch := d.take()
 			b.WriteString("<o>" + d.block(ch) + "</o>")
+		case "after":
+			ch := d.take()
+			b.WriteString("<n></n>" + d.block(ch) + "<n></n>x")
 		case "slot":
 			ch := d.take()
 			b.WriteString("<s>" + d.block(ch) + "</s>")
